@@ -123,7 +123,7 @@ theorem RU.spec_laws (sep : Bytes) (limit : Nat) (ke : Bool) (hsep : sep ≠ [])
         have : ¬ (b.length + 1 - sep.length > limit) := by simp at hl ⊢; omega
         simp [this]
   · -- done_prefix
-    intro b x d r h r' hb
+    intro b x d r h _ r' hb
     unfold RU.spec at h hb
     cases hf : firstOcc sep (b ++ x) with
     | none => rw [hf] at h; simp only at h; split at h <;> cases h
